@@ -1,7 +1,7 @@
 //! C05 — SMT-LIB output of an expression is well-sorted and means the same thing.
 
 use patronus::expr::{Context, ExprRef, TypeCheck};
-use patronus::smt::{SmtCommand, serialize_cmd};
+use patronus::smt::{Logic, SmtCommand, serialize_cmd};
 use pvcore::bv::Val;
 use pvcore::evalref::*;
 use pvcore::run::*;
@@ -62,10 +62,105 @@ pub fn run(opts: &Opts, rep: &Report) {
     };
     let budget = Budget::new(opts.budget_s);
     names_sweep(rep);
+    commands_sweep(rep);
     run_stages(&stages(tier, opts.seed), rep, &budget, &|_| true, &|t, order| check_term(t, order, rep));
 }
 
+/// every command of the shared command alphabet (crate::c14::command_list): the written text must be accepted by
+/// the strict front end in a state in which the command is legal, and push / pop must move exactly n levels
+fn commands_sweep(rep: &Report) {
+    let mut ctx = Context::default();
+    let (cmds, _) = crate::c14::command_list(&mut ctx);
+    const DECL: &str = "(declare-const a Bool)(declare-const b Bool)(declare-const x (_ BitVec 4))(declare-const m (Array (_ BitVec 2) (_ BitVec 4)))";
+    for (k, (label, cmd)) in cmds.iter().enumerate() {
+        rep.add("evaluations", 1);
+        rep.add("commands", 1);
+        let fail = |class: &str, what: String| {
+            rep.violation(Violation { sig: format!("C05|command-{class}|{label}"), what, case: json!({"kind": "command", "index": k}), order: (1 << 52) + k as u64 });
+        };
+        let text = match catch(|| cmd_text(&ctx, cmd)) {
+            Ok(t) => t,
+            Err(p) => {
+                fail(&format!("panic|{}", p.file()), format!("serialize_cmd panicked on {cmd:?}: {} ({})", p.msg, p.short_loc()));
+                continue;
+            }
+        };
+        let prologue = match cmd {
+            SmtCommand::SetLogic(_) | SmtCommand::SetOption(..) | SmtCommand::SetInfo(..) | SmtCommand::Exit => String::new(),
+            SmtCommand::Pop(n) => format!("{DECL}(push {n})"),
+            SmtCommand::GetValue(_) => format!("{DECL}(check-sat)"),
+            SmtCommand::GetUnsatAssumptions => format!("(set-option :produce-unsat-assumptions true){DECL}(assert (not a))(check-sat-assuming (a))"),
+            _ => DECL.to_string(),
+        };
+        let mut script = Script::new(Caps::all());
+        match script.exec_text(&prologue) {
+            Ok(rs) if rs.iter().all(|r| r.is_ok()) => {}
+            other => {
+                eprintln!("MACHINERY: C05 commands: prologue `{prologue}` not accepted: {other:?}");
+                std::process::exit(2);
+            }
+        }
+        let accepted = match script.exec_text(&text) {
+            Ok(rs) if rs.len() == 1 => match &rs[0] {
+                Ok(_) => Ok(()),
+                Err(e) => Err(e.clone()),
+            },
+            Ok(rs) => Err(format!("{} commands instead of one", rs.len())),
+            Err(e) => Err(e),
+        };
+        if let Err(e) = accepted {
+            fail("rejected", format!("the text `{}` written for {cmd:?} is not accepted by a conforming front end: {e}", text.trim()));
+            continue;
+        }
+        // the assertion-stack depth moved by exactly n
+        let depth_probe = |script: &mut Script, undo: Option<u64>| -> bool {
+            if let Some(n) = undo {
+                match script.exec_text(&format!("(pop {n})")) {
+                    Ok(rs) if rs.iter().all(|r| r.is_ok()) => {}
+                    _ => return false,
+                }
+            }
+            // now at the bottom: one more pop must be refused
+            matches!(script.exec_text("(pop 1)"), Ok(rs) if rs.len() == 1 && rs[0].is_err())
+        };
+        match cmd {
+            SmtCommand::Push(n) => {
+                if !depth_probe(&mut script, Some(*n)) {
+                    fail("depth", format!("`{}` written for {cmd:?} does not push exactly {n} levels", text.trim()));
+                }
+            }
+            SmtCommand::Pop(n) => {
+                if !depth_probe(&mut script, None) {
+                    fail("depth", format!("`{}` written for {cmd:?} does not pop exactly {n} levels", text.trim()));
+                }
+            }
+            SmtCommand::SetLogic(l) => {
+                let want = match l {
+                    Logic::All => "ALL",
+                    Logic::QfAufbv => "QF_AUFBV",
+                    Logic::QfAbv => "QF_ABV",
+                    Logic::QfBv => "QF_BV",
+                };
+                if script.logic.as_deref() != Some(want) {
+                    fail("logic", format!("`{}` written for {cmd:?} selects logic {:?}", text.trim(), script.logic));
+                }
+            }
+            SmtCommand::SetOption(o, v) => {
+                if script.options.get(o.as_str()).map(|x| x.as_str()) != Some(v.as_str()) {
+                    fail("option", format!("`{}` written for {cmd:?} sets {:?}", text.trim(), script.options));
+                }
+            }
+            _ => {}
+        }
+        rep.distinct_hashes(&[hash64(&format!("cmd|{text}"))]);
+    }
+}
+
 pub fn replay(case: &Value, rep: &Report) {
+    if case["kind"] == "command" {
+        commands_sweep(rep);
+        return;
+    }
     let t = parse_t(case["term"].as_str().expect("term")).expect("parse term");
     if let Some(names) = case.get("rename").and_then(|x| x.as_object()) {
         let m: Vec<(String, String)> = names.iter().map(|(k, v)| (k.clone(), v.as_str().unwrap_or("").to_string())).collect();
